@@ -125,6 +125,36 @@
                          (var x "a")
                          (for i 0 n (set x (f x)))
                          (peg/compile x) nil)
+    # nested counter instances (session 3): n = number of nested instances, each D levels deep.  Before /repo 5f6c2dc
+    # every compiler / match / quasiquote form started with a fresh limit, so the native stack use was n x D levels.
+    "nest-macro-compile" (fn [n]
+                           (def D 900)
+                           (defn nest [d inner] (var x inner) (repeat d (set x ~(do ,x))) x)
+                           (def env (make-env (curenv)))
+                           (put env 'nm @{:macro true :value
+                                          (fn nm [k] (if (> k 0)
+                                                       (let [r (compile (nest D ~(nm ,(dec k))) env)]
+                                                         (if (function? r) 0 (error (r :error))))
+                                                       0))})
+                           (def r (compile ~(nm ,n) env))
+                           (if (function? r) nil (error (r :error))))
+    "nest-peg-cmt" (fn [n]
+                     (def D 1000)
+                     (var G nil) (var level 0)
+                     (defn f [& caps] (++ level) (if (< level n) (do (peg/match G "x") true) true))
+                     (var x ~(cmt (constant 1) ,f))
+                     (repeat D (set x ~(* ,x 0)))
+                     (set G (peg/compile x))
+                     (peg/match G "x") nil)
+    "nest-qq" (fn [n]
+                (def D 1000)
+                (var x 1)
+                (repeat n
+                  (var y (tuple 'unquote x))
+                  (repeat D (set y (tuple/brackets y)))
+                  (set x (tuple 'quasiquote y)))
+                (def r (compile x (curenv)))
+                (if (function? r) nil (error (r :error))))
     "unmarshal-defs" (fn [n] (unmarshal ((derive-image def-nest) n)) nil)
     "unmarshal-abstract" (fn [n] (unmarshal ((derive-image peg-nest) n)) nil)
     "compile-destructure-head" (fn [n]
